@@ -374,6 +374,54 @@ def indexPredict (byOutputName : Bool) (dim : Nat) (dim2 : Option Nat) (rows : L
   | .project exprs _ (.vsearch info ..) => some (go info (some exprs))
   | _ => none
 
+/-! ### the plan-level meaning (the object of C43_canonical_shape) evaluated on the exported plan -/
+
+def cellOfOpt (v : Option (List Int)) : Cell := match v with | some xs => .vec xs | none => .null
+def vrowOf (r : Src) (withE2 : Bool) : VRow :=
+  [.int r.id, (match r.g with | some g => .int g | none => .null), cellOfOpt r.emb] ++ (if withE2 then [cellOfOpt r.e2] else [])
+
+def outCellOfCell : Cell → OutCell
+  | .null => .null | .int i => .int i | .vec xs => .vec xs | .other _ => .other
+
+/-- the pushed scan filters the generator can produce: comparisons of a column with an integer literal, IS [NOT] NULL -/
+def predSupported : PExpr → Bool
+  | .op "bin" o [.col _ _, .lit _ (.int _)] => o == "ge" || o == "lt" || o == "gt" || o == "le" || o == "eq"
+  | .op "un" o [.col _ _] => o == "isnull" || o == "isnotnull"
+  | _ => false
+
+def evalPred (schema : Schema) (r : VRow) : PExpr → Bool
+  | .op "bin" o [.col _ c, .lit _ (.int v)] =>
+    match (colIndex schema c).map (fun i => r.getD i .null) with
+    | some (.int x) => if o == "ge" then x ≥ v else if o == "lt" then x < v else if o == "gt" then x > v else if o == "le" then x ≤ v else x == v
+    | _ => false
+  | .op "un" o [.col _ c] =>
+    match (colIndex schema c).map (fun i => r.getD i .null) with
+    | some .null => o == "isnull"
+    | some _ => o == "isnotnull"
+    | none => false
+  | _ => false
+
+def predFn (filters : List PExpr) (schema : Schema) (r : VRow) : Bool := filters.all (evalPred schema r)
+
+/-- integer value of an f64 bit pattern (the generated literals are integer-valued) -/
+def litIntsFn (bits : List Nat) : List Int := bits.map (fun b => (Float.ofBits b.toUInt64).toInt64.toInt)
+
+partial def scanFilters (p : Plan) : List PExpr :=
+  match p with
+  | .scan _ _ _ f => f
+  | _ => (children p).flatMap scanFilters
+
+partial def scanSchemas (p : Plan) : List Schema :=
+  match p with
+  | .scan _ s _ _ => [s]
+  | _ => (children p).flatMap scanSchemas
+
+/-- every spec the matcher extracts anywhere in the plan -/
+partial def specsOf (p : Plan) : List KnnSpec :=
+  match canonicalKnn p with
+  | some s => [s]
+  | none => (children p).flatMap specsOf
+
 def handleSql (c i : Json) : Except String Driver.Verdict := do
   let dim ← Driver.getNat c "dim"
   let dim2 := (c.getObjValAs? Nat "dim2").toOption
@@ -407,6 +455,30 @@ def handleSql (c i : Json) : Except String Driver.Verdict := do
       | some w => shapeBad := shapeBad <|> some w
       | none => pure ()
   if !((Driver.getBool i "trace_agrees").toOption.getD true) then shapeBad := shapeBad <|> some "the rule-by-rule replay did not reach the production plan"
+  -- the plan-level `meaning` of the plan the rule saw (first application) against the statement's meaning computed from the AST
+  let mismatchAny := q.order.any (fun k => k.isDist && some k.litLen != (if k.col == "e2" then dim2 else some dim))
+  if let some s0 := steps.toList.head? then
+    let before ← PlanJson.planOfJson (← Driver.getObj s0 "before")
+    let specs := specsOf before
+    if !specs.isEmpty then
+      tags := tags ++ [if specs.all (fun s => chainOk s.input && noCiDup ((schemaOf s.input).map (·.name))) then "hyp:chain_ok" else "hyp:chain_violated"]
+    if (scanFilters before).all predSupported && !mismatchAny then
+      let schema := (scanSchemas before).headD []
+      let cat : List VTable := [{ name := "vt", schema, rows := rows.map (fun r => vrowOf r dim2.isSome) }]
+      match meaning predFn litIntsFn cat before with
+      | some (_, out) =>
+        let want := (modelWindow q false rows).map (fun r => q.sel.map (fun se => (expectCell se.1 r).getD .other))
+        if out.map (·.map outCellOfCell) == want then tags := tags ++ ["meaning:agrees"]
+        else shapeBad := shapeBad <|> some s!"IQE.Engine.VectorSearch.meaning of the exported plan differs from the statement's meaning: {out.length} rows vs {want.length}"
+        -- C43_canonical_shape, evaluated: the spec's answer on the table is the meaning of the accepted node
+        for s in specs do
+          match findLimitSort before with
+          | some node =>
+            match meaning predFn litIntsFn cat node, knnAnswer predFn litIntsFn cat s with
+            | some (_, o1), some o2 => if o1 == o2 then tags := tags ++ ["knn_answer=meaning"] else shapeBad := shapeBad <|> some "knnAnswer differs from the meaning of the accepted node"
+            | _, _ => tags := tags ++ ["knn_answer:undefined"]
+          | none => pure ()
+      | none => tags := tags ++ ["meaning:outside_fragment"]
   let finalVs : Nat := match (do PlanJson.planOrErr (← Driver.getObj i "final")) with | .ok (.ok p) => countVs p | _ => 0
   tags := tags ++ [if finalVs > 0 then "vs:present" else "vs:absent"] ++ (if fired then ["vs:fired"] else [])
   let canon := astCanonical q dim dim2
